@@ -4,6 +4,7 @@ import QuiverModel.Core.Heap.Select
 qm_c06 — driver for M-Heap. One executor state; requests (S-expressions, one per line):
 
   (init)
+  (config dead-roots 0|1)                      model the repair of F17 (source contains release_dead_roots)
   (program (canon n*) (builtins name*))        tables used by `equal` and builtin calls
   (receivers (fcompat (fid kind*)*) (empty fid*))  parameter compatibility / body-less functions (select)
   (i pid (select now))                         a `Select` instruction at clock `now` (stepSelect)
@@ -41,6 +42,9 @@ structure DState where
   emptyFns : List Nat := []
   /-- `awaiting_failed` of every process: (awaiter, awaited) pairs (errors carry no values) -/
   failed : List (Nat × Nat) := []
+  /-- the source under test contains `release_dead_roots` (repair of F17): `finish` is followed by
+  `releaseDeadRoots`, `notify-message` is `notifyMessageGuarded` -/
+  deadRoots : Bool := false
   deriving Inhabited
 
 partial def parseVal : Sx → Option Val
@@ -248,7 +252,11 @@ def answerP (d : DState) (pid : Nat) (out : String) : DState × String :=
 
 def c06Step (d : DState) (req : List Sx) : DState × String :=
   match req with
-  | [.list [.atom "init"]] => answer {} "ok"
+  | [.list [.atom "init"]] => answer { deadRoots := d.deadRoots } "ok"
+  | [.list [.atom "config", .atom "dead-roots", b]] =>
+    match parseBool b with
+    | some b => answer { d with deadRoots := b } "ok"
+    | none => (d, "bad-request")
   | [.list [.atom "program", .list (.atom "canon" :: cs), .list (.atom "builtins" :: bs)]] =>
     match cs.mapM Sx.asNat, bs.mapM Sx.asAtom with
     | some c, some b => answer { d with canon := c, builtins := b } "ok"
@@ -309,13 +317,17 @@ def c06Step (d : DState) (req : List Sx) : DState × String :=
       let notified := match o with | .fail => false | _ => true
       let failed := if failedNow && notified then stillAwaiting.map (fun a => (a, pid)) ++ d.failed else d.failed
       let s := if notified then notifyAwaiters s pid else s
+      let s := if d.deadRoots then releaseDeadRoots s pid else s
+      let failed := if d.deadRoots then failed.filter (fun e => e.1 != pid ||
+          (match s.getProc pid with | some p => p.persistent | none => false)) else failed
       answerP { d with s := s, failed := failed } pid (renderOut s o)
     | none => (d, "bad-request")
   | [.list [.atom "ppf"]] => answer { d with s := processPendingFree d.s } "ok"
   | [.list [.atom "notify-message", id, v, hd]] =>
     match id.asNat, parseVal v, parseHexList hd with
     | some id, some v, some hd =>
-      let (s, o) := notifyMessage d.s id v hd; answer { d with s := s } (renderOut s o)
+      let (s, o) := if d.deadRoots then notifyMessageGuarded d.s id v hd else notifyMessage d.s id v hd
+      answer { d with s := s } (renderOut s o)
     | _, _, _ => (d, "bad-request")
   | [.list [.atom "notify-result", a, b, v, hd]] =>
     match a.asNat, b.asNat, parseVal v, parseHexList hd with
